@@ -10,6 +10,8 @@ def BASE_SUBSIDY : Nat := 5000000000
 def MEDIAN_TIME_SPAN : Nat := 11
 def MAX_TIMEWARP : Int := 600
 def MAX_MONEY : Nat := 2100000000000000
+/-- everything that is ever issued on a 210000-block halving schedule -/
+def MAINNET_TOTAL : Nat := 2099999997690000
 
 /-- N = (-1)^sign * mantissa * 256^(exponent-3) (integer part). -/
 def compactValue (c : Nat) : Int :=
@@ -33,6 +35,15 @@ def clamp (x lo hi : Int) : Int := if x < lo then lo else if x > hi then hi else
 def retarget (old : Int) (actual tMin tMax T : Int) (powLimit : Int) : Int :=
   let n := Int.tdiv (old * clamp actual tMin tMax) T
   if n > powLimit then powLimit else n
+
+/-- Bitcoin Core's `CalculateNextWorkRequired` computes `bnNew *= nActualTimespan` in `arith_uint256`,
+    i.e. the product wraps modulo 2^256 before the division. -/
+def retargetCore (old : Int) (actual tMin tMax T : Int) (powLimit : Int) : Int :=
+  let n := Int.tdiv ((old * clamp actual tMin tMax) % 2^256) T
+  if n > powLimit then powLimit else n
+
+/-- maximum distance of a header time stamp into the future (seconds) -/
+def MAX_TIME_OFFSET : Int := 7200
 
 /-- subsidy at a non-negative height -/
 def subsidy (height interval : Nat) : Nat :=
